@@ -377,6 +377,10 @@ func (w *pw) stmt(s *Stmt, st Style, tag string) {
 			w.add("(")
 			w.add("global")
 			w.add(")")
+		} else if s.LMod {
+			w.add("(")
+			w.add("local")
+			w.add(")")
 		}
 		w.add(":")
 	case "if":
